@@ -25,6 +25,10 @@ META = dict(
          "Each Packetizer walks its window three times in a row (ascending, descending, shuffled) so that state kept "
          "between packets cannot hide; further Packetizers are re-keyed through a walk covering every ordered pair of "
          "framing families (classic/etm/gcm, block 8/16) with all lengths 1..2*bs+8 after each switch. "
+         "Write side: an explicit product of socket behaviours per packet ({full, partial k} x {ok, timeout xN, EAGAIN xN, "
+         "mixed, partial again}) with a byte ledger of every send() call (nothing skipped, nothing repeated), and 2-4 "
+         "threads sending through one Packetizer over a socket that takes a packet in several yielding send() calls "
+         "(stream must re-parse as whole packets in sequence-number order). "
          "Outside the window: boundary lengths up to 2^18 and random lengths. Lengths up to 2^32-1 are not "
          "reachable by execution; the formula is exercised at every residue modulo the block size.",
     note="exhaustive refers to the concrete window 0..4*bs+8 for every suite and framing mode, not to the symbolic "
@@ -244,6 +248,170 @@ def run_chain(ctx, rng, idx, comp, byfam):
     ctx.count("rekey_chains_completed")
 
 
+# ---------------------------------------------------------------------------
+# write side: scripted partial writes / retryable errors, and concurrent senders
+# ---------------------------------------------------------------------------
+def write_scripts():
+    """Explicit product {full, partial k} x {then ok, timeout xN, EAGAIN xN, mixed, partial again (+errors)} as
+    per-call action lists for MemSock.plan; whatever is left after the script is accepted in one call."""
+    T, E = ("timeout",), ("eagain",)
+    thens = [("ok", []), ("timeout x1", [T]), ("timeout x3", [T] * 3), ("timeout x12", [T] * 12),
+             ("eagain x1", [E]), ("eagain x3", [E] * 3), ("mixed x4", [T, E, E, T]),
+             ("partial again", [("take", 2)]), ("partial again + timeout", [("take", 2), T]),
+             ("partial, error, partial, error", [("take", 2), T, ("take", 0.5), E])]
+    out = [("full", [("take", None)])]
+    for name, acts in thens[1:7]:
+        out.append(("error first: " + name, list(acts)))
+    for k in (1, 3, 4, 5, 8, 16, 17, 0.5, -1):
+        for name, acts in thens:
+            out.append(("partial %s then %s" % (k, name), [("take", k)] + list(acts)))
+    return out
+
+
+def ledger_violations(ctx, problems, mode, wit, who="socket write ledger"):
+    for kind, after, detail in problems:
+        if kind == "interleaved":
+            sig = "%s: chunks of different packets interleaved on the socket (%s)" % (who, mode)
+        elif kind == "unfinished":
+            sig = "%s: packet not written completely (%s)" % (who, mode)
+        else:
+            sig = "%s: bytes %s after %s (%s)" % (who, kind, after, mode)
+        ctx.violation(sig, detail, wit)
+
+
+def run_write_scripts(ctx, rng, idx, cipher, mac, comp):
+    exp = expected(cipher, mac)
+    if exp is None:
+        return
+    mode, bs, maclen = exp
+    b = pb.Bench(rng, cipher or "aes128-ctr", mac or "hmac-sha2-256", comp, sender_role="client" if idx % 2 else "server",
+                 rev=pb.draw_reverse(rng, idx))
+    if cipher is not None:
+        b.rekey()
+    b.sock.calls = []
+    import collections
+
+    for j, (name, acts) in enumerate(write_scripts()):
+        n = [1, bs - 5, bs, bs + 3, 2 * bs + 1, 90, 300][(j + idx) % 7]
+        wit = dict(kind="write script", script=name, cipher=cipher, mac=mac, comp=comp, length=n)
+        ctx.case(("wscript", cipher, mac, comp, name, n), sample=wit if j == 23 and len(ctx.samples) < 4 else None)
+        c0 = len(b.sock.calls)
+        b.sock.plan = collections.deque(acts)
+        try:
+            b.send(pb.rand_payload(rng, max(1, n), comp != "none"))
+        except Exception as e:
+            ctx.violation("sender failed while writing a packet: %s" % core.exc_signature(e),
+                          "send_message raised %r under write script %r" % (e, name), wit)
+            return
+        calls = b.sock.calls[c0:]
+        packets, problems = pb.judge_write_ledger(calls)
+        ctx.count("write_script_packets_checked")
+        ctx.count("socket_write_calls_in_ledger", len(calls))
+        ledger_violations(ctx, problems, mode, wit)
+        ev = packets[0]["events"] if packets else []
+        if any(a == "partial" and z in ("timeout", "eagain") for a, z in zip(ev, ev[1:])):
+            ctx.count("partial_followed_by_retryable_error")
+        if any(a in ("timeout", "eagain") and z == "partial" for a, z in zip(ev, ev[1:])):
+            ctx.count("retryable_error_followed_by_partial")
+        sent = b.sent[-1]
+        if not problems and (len(packets) != 1 or packets[0]["data"] != sent["wire"]):
+            ctx.violation("socket write ledger: accepted bytes are not the packet handed to the socket (%s)" % mode,
+                          "ledger and wire disagree", wit)
+        if sent["build"] is not None and mode == "clear" and sent["wire"] != sent["build"][1]:
+            ctx.violation("socket write ledger: accepted bytes are not the built packet (clear)", "wire != image", wit)
+    check_stream(ctx, b, cipher, mac, comp, dict(kind="write scripts", cipher=cipher, mac=mac, comp=comp))
+
+
+def run_concurrent(ctx, rng, idx, cipher, mac, comp, nthreads, per_thread):
+    """2-4 threads send through ONE Packetizer over a socket that takes a packet in several send() calls and
+    yields between them.  The accepted byte stream must re-parse as whole packets with consecutive sequence
+    numbers and valid MACs, every thread's messages in its own order, no chunk of another packet in between."""
+    import struct as _st
+    import sys
+    import threading
+    from paramiko.message import Message
+
+    exp = expected(cipher, mac)
+    if exp is None:
+        return
+    mode = exp[0]
+    b = pb.Bench(rng, cipher or "aes128-ctr", mac or "hmac-sha2-256", comp, sender_role="client" if idx % 2 else "server",
+                 rev=pb.draw_reverse(rng, idx), tap_factory=pb.make_concurrent_tap)
+    if cipher is not None:
+        b.rekey()
+    sock = b.sock
+    base = len(sock.wire)
+    sock.calls = []
+    sock.chunk_limit = rng.choice([1, 3, 7, 16, 33])
+    sock.yield_s = rng.choice([0, 0, 0.00005])
+    pk = b.t.packetizer
+    sock.observer = lambda: pk.inflight
+    plans = [[bytes([pb.rand_type(rng)]) + _st.pack(">BI", t, i) + pb.rand_payload(rng, rng.choice([1, 9, 40, 120]), comp != "none")
+              for i in range(per_thread)] for t in range(nthreads)]
+    errors = []
+    gate = threading.Barrier(nthreads)
+
+    def worker(t):
+        try:
+            gate.wait(30)
+            for msg in plans[t]:
+                b.t._send_message(Message(msg))
+        except Exception as e:  # noqa
+            errors.append(e)
+
+    wit = dict(kind="concurrent senders", threads=nthreads, per_thread=per_thread, cipher=cipher, mac=mac, comp=comp,
+               chunk_limit=sock.chunk_limit)
+    old_si = sys.getswitchinterval()
+    sys.setswitchinterval(1e-4)
+    try:
+        ths = [threading.Thread(target=worker, args=(t,), daemon=True) for t in range(nthreads)]
+        for th in ths:
+            th.start()
+        for th in ths:
+            th.join(120)
+    finally:
+        sys.setswitchinterval(old_si)
+    if any(th.is_alive() for th in ths):
+        ctx.count("concurrent_cases_abandoned")
+        return
+    if errors:
+        ctx.violation("concurrent senders: send_message raised %s" % core.exc_signature(errors[0]), repr(errors[0]), wit)
+        return
+    ctx.count("concurrent_cases_completed")
+    ctx.count("concurrent_cases_%s" % mode)
+    packets, problems = pb.judge_write_ledger(sock.calls)
+    ledger_violations(ctx, problems, mode, wit, who="concurrent senders")
+    ctx.count("concurrent_packets_written", len(packets))
+    ctx.count("packets_written_while_another_sender_was_waiting", sum(1 for p_ in packets if p_["inflight"] >= 2))
+    try:
+        facts = pb.RefRx(b.wire(), b.ref_epochs(captured=True), comp, b.spec["strict"]).all()
+    except pb.RefError as e:
+        ctx.violation("concurrent senders: the byte stream does not re-parse as whole packets: %s (%s)" % (e, mode),
+                      "independent decoder failed on the bytes the socket accepted", wit)
+        return
+    ctx.count("concurrent_streams_reparsed")
+    body = [f for f in facts if f["start"] >= base]
+    if not all(f.get("mac_ok", True) for f in body):
+        ctx.violation("concurrent senders: MAC does not match the packet's position in the stream (%s)" % mode,
+                      "wire order differs from sequence-number order", wit)
+        return
+    got = [f["payload"] for f in body]
+    if sorted(got) != sorted(m for pl in plans for m in pl):
+        ctx.violation("concurrent senders: messages on the wire differ from the messages sent (%s)" % mode,
+                      "lost, duplicated or altered message", wit)
+        return
+    for t in range(nthreads):
+        mine = [g for g in got if g[1:2] == bytes([t]) and g in plans[t]]
+        if mine != plans[t]:
+            ctx.violation("concurrent senders: one thread's messages left in a different order (%s)" % mode,
+                          "per-sender order not preserved", wit)
+            return
+    for f in body:
+        if not (4 <= f["pad"] <= 255) or f["span"] % f["bs"] != 0:
+            ctx.violation("concurrent senders: malformed packet (%s)" % mode, "padding/alignment", wit)
+            return
+
+
 def run(ctx):
     rng = ctx.rng
     suites = [(None, None)] + pb.offered_suites()
@@ -285,6 +453,28 @@ def run(ctx):
         for fb in pb.FAMILIES:
             if byfam[fa] and byfam[fb]:
                 ctx.require("epoch_family_transitions_seen_%s_to_%s" % (fa, fb), 12)
+    # (a'') scripted write-side faults on every suite, and concurrent senders on every framing family
+    k = 0
+    for i, (c, m) in enumerate(suites):
+        k += 1
+        if not ctx.mine(k):
+            continue
+        run_write_scripts(ctx, rng, i, c, m, "zlib" if i % 5 == 4 else "none")
+    fams = [(None, None)] + [rng.choice(byfam[f]) for f in pb.FAMILIES if byfam[f]]
+    for j in range(ctx.pick(8, 60)):
+        c, m = fams[(j + ctx.shard) % len(fams)] if j < 2 * len(fams) else rng.choice(suites)
+        nt = 2 + (j + ctx.shard) % 3
+        per = rng.randint(4, 12)
+        ctx.case(("conc", c, m, nt, per, j, ctx.shard), sample=dict(kind="concurrent senders", cipher=c, mac=m, threads=nt,
+                                                                    messages_per_thread=per) if j == 1 else None)
+        run_concurrent(ctx, rng, j, c, m, "zlib" if j % 4 == 3 else "none", nt, per)
+    ctx.require("write_script_packets_checked", 3000)
+    ctx.require("partial_followed_by_retryable_error", 1000)
+    ctx.require("concurrent_cases_completed", 30)
+    ctx.require("concurrent_streams_reparsed", 30)
+    ctx.require("packets_written_while_another_sender_was_waiting", 200)
+    for f in ("clear",) + tuple(f for f in pb.FAMILIES if byfam[f]):
+        ctx.require("concurrent_cases_%s" % f, 4)
     # (b) boundaries up to 2^18 and random lengths
     reps = ctx.pick(1, 30)
     for rep in range(reps):
